@@ -12,6 +12,7 @@ package webrtc
 import (
 	"bytes"
 	"fmt"
+	"runtime/debug"
 	"sync/atomic"
 	"testing"
 
@@ -208,6 +209,9 @@ func c29History(seq []int) []string {
 func TestVerifC29(t *testing.T) {
 	c := vkit.New("C29", "model_checking")
 	defer c.Finish(t)
+	// millions of short-lived tracks: with the default GC pacing (4 MB minimum heap) the collector runs
+	// almost continuously; let the heap grow to ~100 MB between cycles instead
+	defer debug.SetGCPercent(debug.SetGCPercent(2500))
 	c.Rule("histories = every operation sequence of length 1..depth over {Bind(ctx0..3), Unbind(ctx0..2), WriteRTP(p0..p3), Write(bytes(p0..p3))} without a Bind of an already bound context, each run on a fresh real TrackLocalStaticRTP with fake contexts (distinct SSRCs and payload types; ctx3 has not negotiated the track's codec); states = the set of bound contexts of the reference model; transitions = executed operations; the effect of the last operation of every history is checked (all proper prefixes are histories of their own). A class is non-trivial when a write reached at least one bound sender")
 	c.Assume("Bind is only called for a context that is not currently bound (what RTPSender does); Unbind of a context that is not bound is enumerated and must leave the other bindings alone")
 
@@ -229,7 +233,7 @@ func TestVerifC29(t *testing.T) {
 	c.Set("packets", "p0 plain; p1 3 CSRCs + marker + two one-byte extensions + max seq/ts; p2 CSRC + two-byte extension + Header.PaddingSize 4; p3 padding through the deprecated Packet.PaddingSize")
 
 	var (
-		states  [1 << c29NCtx]atomic.Bool              // model states reached
+		states  [1 << c29NCtx]atomic.Bool                // model states reached
 		classes [2 * c29NPkt * (c29NCtx + 1)]atomic.Bool // (write kind, packet, number of receivers) reached
 		pruned  atomic.Int64
 	)
